@@ -7,7 +7,7 @@
 set -u
 . /verif/env.sh
 WT="$1"; ID="$2"; M="$3"; shift 3
-CHECKS="$ID $*"
+CHECKS="$ID $*"; case "$ID" in C[0-9][0-9]) ;; *) CHECKS="$*";; esac
 SRC="$WT/out/$M"
 DST="/verif/seeded/$ID-$M"
 [ -f "$SRC/patch.diff" ] || { echo "no patch in $SRC"; exit 2; }
